@@ -135,6 +135,13 @@ func Go(fn func()) { go fn() }
 // Yield is a possible context switch.
 func Yield() {}
 
+// Deterministic switches interleaving exploration off (set-up phase) or back on.
+func Deterministic(on bool) {}
+
+// Settle lets the background goroutines started so far run until they block, without
+// exploring their interleavings (set-up phase of a scenario).
+func Settle() {}
+
 // Quiesce waits until no thread of the scenario can run and returns how many are still alive.
 func Quiesce() int { return 0 }
 
